@@ -19,6 +19,7 @@ use reactive_graph::{
     owner::Owner,
     signal::{ArcRwSignal, RwSignal},
     traits::{Get, Set},
+    wrappers::read::{ArcSignal, Signal},
 };
 use std::sync::{Arc, Mutex};
 
@@ -31,6 +32,9 @@ pub enum Expr {
     Ite(Box<Expr>, Box<Expr>, Box<Expr>),
     Seq(Box<Expr>, Box<Expr>),
     Wr(usize, Box<Expr>),
+    /// one `untrack(|| …)` scope around a sub-expression whose reads are all written `U<id>`;
+    /// the model treats it as transparent (each inner read is already untracked)
+    Unt(Box<Expr>),
 }
 
 pub fn parse_expr(toks: &[&str], pos: &mut usize) -> Option<Expr> {
@@ -46,6 +50,7 @@ pub fn parse_expr(toks: &[&str], pos: &mut usize) -> Option<Expr> {
         }
         "ite" => Expr::Ite(sub(pos)?, sub(pos)?, sub(pos)?),
         "seq" => Expr::Seq(sub(pos)?, sub(pos)?),
+        "unt" => Expr::Unt(sub(pos)?),
         "wr" => {
             let id: usize = toks.get(*pos)?.parse().ok()?;
             *pos += 1;
@@ -68,6 +73,7 @@ pub fn show_expr(e: &Expr) -> String {
         Expr::Ite(c, t, e) => format!("ite {} {} {}", show_expr(c), show_expr(t), show_expr(e)),
         Expr::Seq(a, b) => format!("seq {} {}", show_expr(a), show_expr(b)),
         Expr::Wr(i, a) => format!("wr {i} {}", show_expr(a)),
+        Expr::Unt(a) => format!("unt {}", show_expr(a)),
     }
 }
 
@@ -94,6 +100,14 @@ enum Handle {
     Eff,
 }
 
+/// how other nodes read a signal/memo: directly, or through a wrapper / derived signal
+#[derive(Clone)]
+enum Reader {
+    Direct,
+    Wrapped(Signal<i64>),
+    ArcWrapped(ArcSignal<i64>),
+}
+
 /// what one invocation of a body did (recorded by the interpreter inside the real closure)
 #[derive(Clone, Debug, Default)]
 pub struct RunRec {
@@ -112,6 +126,7 @@ pub struct RunRec {
 pub struct Shared {
     pub defs: Vec<Def>,
     handles: Vec<Handle>,
+    readers: Vec<Reader>,
     /// current signal values as written by the harness / by effects (oracle's env)
     pub env: Vec<i64>,
     /// versions: signals = writes; memos/effects = runs with a result different from the previous one
@@ -146,6 +161,7 @@ pub fn eval_pure(defs: &[Def], env: &[i64], e: &Expr) -> i64 {
         }
         Expr::Seq(_, b) => eval_pure(defs, env, b),
         Expr::Wr(_, a) => eval_pure(defs, env, a),
+        Expr::Unt(a) => eval_pure(defs, env, a),
     }
 }
 
@@ -155,6 +171,7 @@ pub fn has_untracked(e: &Expr) -> bool {
         Expr::Rd(t, _) => !*t,
         Expr::Add(a, b) | Expr::Seq(a, b) => has_untracked(a) || has_untracked(b),
         Expr::Mulc(_, a) | Expr::Wr(_, a) => has_untracked(a),
+        Expr::Unt(_) => true,
         Expr::Ite(c, t, e) => has_untracked(c) || has_untracked(t) || has_untracked(e),
     }
 }
@@ -164,8 +181,16 @@ pub fn has_write(e: &Expr) -> bool {
         Expr::Lit(_) | Expr::Rd(..) => false,
         Expr::Wr(..) => true,
         Expr::Add(a, b) | Expr::Seq(a, b) => has_write(a) || has_write(b),
-        Expr::Mulc(_, a) => has_write(a),
+        Expr::Mulc(_, a) | Expr::Unt(a) => has_write(a),
         Expr::Ite(c, t, e) => has_write(c) || has_write(t) || has_write(e),
+    }
+}
+
+fn read_via(h: &Handle, r: &Reader) -> i64 {
+    match r {
+        Reader::Direct => read_handle(h),
+        Reader::Wrapped(s) => s.get(),
+        Reader::ArcWrapped(s) => s.get(),
     }
 }
 
@@ -189,12 +214,21 @@ fn write_handle(h: &Handle, v: i64) {
 
 /// interpret an expression against the REAL reactive nodes (called from inside real closures)
 fn interp(sh: &Sh, e: &Expr) -> i64 {
+    interp_in(sh, e, false)
+}
+
+fn interp_in(sh: &Sh, e: &Expr, in_unt: bool) -> i64 {
     match e {
         Expr::Lit(n) => *n,
+        Expr::Unt(a) => untrack(|| interp_in(sh, a, true)),
         Expr::Rd(tracked, id) => {
-            let h = sh.lock().unwrap().handles.get(*id).cloned();
-            let Some(h) = h else { return 0 };
-            let v = if *tracked { read_handle(&h) } else { untrack(|| read_handle(&h)) };
+            let (h, r) = {
+                let g = sh.lock().unwrap();
+                (g.handles.get(*id).cloned(), g.readers.get(*id).cloned())
+            };
+            let (Some(h), Some(r)) = (h, r) else { return 0 };
+            // inside an `unt` scope the enclosing untrack already hides the observer
+            let v = if *tracked || in_unt { read_via(&h, &r) } else { untrack(|| read_via(&h, &r)) };
             let mut g = sh.lock().unwrap();
             let ver = g.ver[*id];
             let expect = scratch(&g.defs, &g.env, *id);
@@ -212,17 +246,17 @@ fn interp(sh: &Sh, e: &Expr) -> i64 {
             }
             v
         }
-        Expr::Add(a, b) => interp(sh, a).wrapping_add(interp(sh, b)),
-        Expr::Mulc(k, a) => k.wrapping_mul(interp(sh, a)),
+        Expr::Add(a, b) => interp_in(sh, a, in_unt).wrapping_add(interp_in(sh, b, in_unt)),
+        Expr::Mulc(k, a) => k.wrapping_mul(interp_in(sh, a, in_unt)),
         Expr::Ite(c, t, f) => {
-            if interp(sh, c) != 0 { interp(sh, t) } else { interp(sh, f) }
+            if interp_in(sh, c, in_unt) != 0 { interp_in(sh, t, in_unt) } else { interp_in(sh, f, in_unt) }
         }
         Expr::Seq(a, b) => {
-            interp(sh, a);
-            interp(sh, b)
+            interp_in(sh, a, in_unt);
+            interp_in(sh, b, in_unt)
         }
         Expr::Wr(id, a) => {
-            let v = interp(sh, a);
+            let v = interp_in(sh, a, in_unt);
             let h = {
                 let mut g = sh.lock().unwrap();
                 if matches!(g.defs.get(*id), Some(Def::Sig(_))) {
@@ -279,6 +313,7 @@ pub struct Case {
     pub sh: Sh,
     owner: Owner,
     arena: bool,
+    wrap: u8,
     pub effs: Vec<EffSlot>,
 }
 
@@ -288,11 +323,17 @@ impl Case {
         sched::reset();
         let owner = Owner::new();
         owner.set();
-        Case { sh: Arc::new(Mutex::new(Shared::default())), owner, arena: false, effs: vec![] }
+        Case { sh: Arc::new(Mutex::new(Shared::default())), owner, arena: false, wrap: 0, effs: vec![] }
     }
 
     pub fn set_mode(&mut self, arena: bool) {
         self.arena = arena
+    }
+
+    /// 0 = read nodes directly, 1 = through `Signal::from(..)` / `ArcSignal::from(..)`,
+    /// 2 = through a derived signal `Signal::derive(move || node.get())`
+    pub fn set_wrap(&mut self, w: u8) {
+        self.wrap = w
     }
 
     pub fn define(&mut self, d: Def) {
@@ -317,11 +358,35 @@ impl Case {
             }
             Def::Eff(_) => Handle::Eff,
         });
+        let reader = self.owner.with(|| match (self.wrap, &h) {
+            (1, Handle::Sig(x)) => Reader::Wrapped(Signal::from(*x)),
+            (1, Handle::Memo(x)) => Reader::Wrapped(Signal::from(*x)),
+            (1, Handle::ArcSig(x)) => Reader::ArcWrapped(ArcSignal::from(x.clone())),
+            (1, Handle::ArcMemo(x)) => Reader::ArcWrapped(ArcSignal::from(x.clone())),
+            (2, Handle::Sig(x)) => {
+                let x = *x;
+                Reader::Wrapped(Signal::derive(move || x.get()))
+            }
+            (2, Handle::Memo(x)) => {
+                let x = *x;
+                Reader::Wrapped(Signal::derive(move || x.get()))
+            }
+            (2, Handle::ArcSig(x)) => {
+                let x = x.clone();
+                Reader::ArcWrapped(ArcSignal::derive(move || x.get()))
+            }
+            (2, Handle::ArcMemo(x)) => {
+                let x = x.clone();
+                Reader::ArcWrapped(ArcSignal::derive(move || x.get()))
+            }
+            _ => Reader::Direct,
+        });
         {
             let mut g = self.sh.lock().unwrap();
             g.env.push(if let Def::Sig(v) = &d { *v } else { 0 });
             g.defs.push(d.clone());
             g.handles.push(h);
+            g.readers.push(reader);
             g.ver.push(0);
             g.last.push(None);
             g.runs.push(0);
@@ -364,7 +429,32 @@ impl Case {
         true
     }
 
-    pub fn set(&self, id: usize, v: i64) -> bool {
+    /// does node `x` (by its last run's tracked reads) depend on signal `sig`?
+    fn depends_on(g: &Shared, x: usize, sig: usize, depth: usize) -> bool {
+        if x == sig {
+            return true;
+        }
+        if depth == 0 {
+            return false;
+        }
+        match (&g.defs[x], &g.last[x]) {
+            (Def::Sig(_), _) => false,
+            (_, Some(r)) => r.treads.iter().any(|t| Self::depends_on(g, t.0, sig, depth - 1)),
+            _ => false,
+        }
+    }
+
+    pub fn set(&mut self, id: usize, v: i64) -> bool {
+        // the pause excuse covers only changes made DURING the pause: a write to a dependency of a
+        // resumed effect ends it (the effect must be notified and run again)
+        {
+            let g = self.sh.lock().unwrap();
+            for slot in self.effs.iter_mut() {
+                if slot.alive && !slot.paused && slot.paused_at_runs.is_some() && Self::depends_on(&g, slot.node, id, 64) {
+                    slot.paused_at_runs = None;
+                }
+            }
+        }
         let h = {
             let mut g = self.sh.lock().unwrap();
             if !matches!(g.defs.get(id), Some(Def::Sig(_))) {
@@ -379,11 +469,36 @@ impl Case {
     }
 
     pub fn read(&self, id: usize) -> Option<i64> {
-        let h = self.sh.lock().unwrap().handles.get(id).cloned()?;
+        let (h, r) = {
+            let g = self.sh.lock().unwrap();
+            (g.handles.get(id).cloned()?, g.readers.get(id).cloned()?)
+        };
         if matches!(h, Handle::Eff) {
             return None;
         }
-        Some(read_handle(&h))
+        Some(read_via(&h, &r))
+    }
+
+    /// `Owner::pause` / `Owner::resume` on the ROOT owner of the case (reaches every effect's owner)
+    pub fn root_op(&mut self, op: &str) {
+        let runs: Vec<u64> = self.sh.lock().unwrap().runs.clone();
+        match op {
+            "pauseall" => {
+                self.owner.pause();
+                for s in self.effs.iter_mut() {
+                    if s.alive {
+                        s.paused = true;
+                        s.paused_at_runs = Some(runs[s.node]);
+                    }
+                }
+            }
+            _ => {
+                self.owner.resume();
+                for s in self.effs.iter_mut() {
+                    s.paused = false;
+                }
+            }
+        }
     }
 
     pub fn drain_log(&self) -> Vec<RunRec> {
